@@ -24,6 +24,7 @@ Accepted expressions
 Types: 'R' number, 'Z' integer, 'B' bool, ('T', [types]) tuple, ('Rec', name).
 """
 import ast
+import copy
 import os
 import sys
 from fractions import Fraction
@@ -77,6 +78,57 @@ def find_def(tree, qualname):
             raise Unsupported("definition %s not found" % qualname)
         body = node.body
     return node
+
+
+class _Subst(ast.NodeTransformer):
+    def __init__(self, mapping):
+        self.mapping = mapping
+
+    def visit_Name(self, node):
+        if isinstance(node.ctx, ast.Load) and node.id in self.mapping:
+            return copy.deepcopy(self.mapping[node.id])
+        return node
+
+
+def inline_private_helpers(tree, qualname):
+    """The function `qualname` with every statement `self._helper(args)` replaced by the body of the method _helper of
+    the same class (parameters substituted by the argument expressions).  A maintainer extracting the shared arithmetic
+    of two operators into a private helper does not change what is computed; this keeps such a rewrite translatable.
+    Only statement-level calls of single-underscore methods with positional arguments, no return value, one level."""
+    fn = find_def(tree, qualname)
+    parts = qualname.split(".")
+    if len(parts) != 2:
+        return fn
+    cls = find_def(tree, parts[0])
+    methods = {n.name: n for n in cls.body if isinstance(n, ast.FunctionDef)}
+
+    def expand(stmts):
+        out = []
+        for st in stmts:
+            if isinstance(st, ast.Expr) and isinstance(st.value, ast.Call) and isinstance(st.value.func, ast.Attribute) \
+                    and isinstance(st.value.func.value, ast.Name) and st.value.func.value.id == "self" \
+                    and st.value.func.attr.startswith("_") and not st.value.func.attr.startswith("__") \
+                    and st.value.func.attr in methods and not st.value.keywords:
+                h = methods[st.value.func.attr]
+                params = [a.arg for a in h.args.args][1:]
+                if len(params) == len(st.value.args) and not h.args.vararg and not h.args.kwarg and not h.args.kwonlyargs \
+                        and not any(isinstance(x, ast.Return) and x.value is not None for x in ast.walk(h)):
+                    mapping = dict(zip(params, st.value.args))
+                    assigned = {t.id for x in ast.walk(h) if isinstance(x, ast.Assign) for t in x.targets if isinstance(t, ast.Name)}
+                    if not (assigned & set(params)):
+                        body = [b for b in h.body if not (isinstance(b, ast.Expr) and isinstance(b.value, ast.Constant))]
+                        out.extend(ast.fix_missing_locations(_Subst(mapping).visit(copy.deepcopy(b))) for b in body)
+                        continue
+            for fld in ("body", "orelse", "finalbody"):
+                if hasattr(st, fld) and isinstance(getattr(st, fld), list) and getattr(st, fld) \
+                        and isinstance(getattr(st, fld)[0], ast.stmt):
+                    st = copy.copy(st)
+                    setattr(st, fld, expand(getattr(st, fld)))
+            out.append(st)
+        return out
+    fn2 = copy.copy(fn)
+    fn2.body = expand(fn.body)
+    return fn2
 
 
 class FuncTranslator:
@@ -225,7 +277,20 @@ class FuncTranslator:
                 return self.holes[fname]
             if e.keywords:
                 raise Unsupported("keyword args at %s" % _loc(e))
-            args = [self.expr(x, env) for x in e.args]
+            if fname in ("min", "max") and len(e.args) == 1 and not e.keywords:
+                # min/max over a tuple literal, or over a local name bound to one (xs = (a, b, c); min(xs))
+                a0 = e.args[0]
+                parts = None
+                if isinstance(a0, ast.Tuple):
+                    parts = [self.expr(x, env) for x in a0.elts]
+                elif isinstance(a0, ast.Name) and ("%tuple%" + a0.id) in env:
+                    parts = list(env["%tuple%" + a0.id])
+                if parts is not None and len(parts) >= 2:
+                    args = parts
+                else:
+                    args = [self.expr(x, env) for x in e.args]
+            else:
+                args = [self.expr(x, env) for x in e.args]
             if fname in ("min", "max") and len(args) >= 2:
                 acc, tacc = args[0]
                 for b, tb in args[1:]:
@@ -325,6 +390,10 @@ class FuncTranslator:
         if isinstance(s, ast.Assign) and len(s.targets) == 1:
             v, tv = self.expr(s.value, env)
             pat, env2 = self.bind(s.targets[0], v, tv, env)
+            if isinstance(s.targets[0], ast.Name):
+                env2.pop("%tuple%" + s.targets[0].id, None)
+                if isinstance(s.value, ast.Tuple):
+                    env2["%tuple%" + s.targets[0].id] = [self.expr(x, env) for x in s.value.elts]
             return "let %s := %s in\n  %s" % (pat, v, self.block(rest, env2, rtype_box, tail))
         if isinstance(s, ast.AnnAssign) and s.value is not None and isinstance(s.target, ast.Name):
             v, tv = self.expr(s.value, env)
@@ -474,7 +543,7 @@ def gen_from_assigns(ft, src, qualname, coqname, params, targets, result, attr_v
     `targets`: names (or unparsed target texts such as '(a, b, c, d, e, f)') assigned exactly once anywhere in the
     function, translated in the given order; `result` is a Python expression over params and targets;
     attr_vars maps attribute chains (e.g. 'self.textstate.leading') to (param name, type)."""
-    fn = find_def(ft.tree, qualname)
+    fn = inline_private_helpers(ft.tree, qualname)
     ft.src = src
     ft.attr_vars = dict(attr_vars or {})
     ft.holes = dict(holes or {})
